@@ -80,21 +80,28 @@ class _CpuTimeout(Exception):
     pass
 
 
-def _limited(fn, cpu_seconds=20.0):
+_TIMEOUTS = [0]  # per worker process
+
+
+def _limited(fn):
     """mz.outcome with a CPU-time limit (a defective reader may loop forever); ITIMER_VIRTUAL counts
-    only this process's own CPU time, so a loaded machine cannot cause a spurious timeout"""
+    only this process's own CPU time, so a loaded machine cannot cause a spurious timeout.  Normal
+    calls take 0.1-30 ms; after three timeouts in a worker the limit drops so that the run still ends."""
     import signal
 
     def on_alarm(_sig, _frm):
         raise _CpuTimeout()
 
     old = signal.signal(signal.SIGVTALRM, on_alarm)
-    signal.setitimer(signal.ITIMER_VIRTUAL, cpu_seconds)
+    signal.setitimer(signal.ITIMER_VIRTUAL, 3.0 if _TIMEOUTS[0] < 3 else 0.3)
     try:
-        return mz.outcome(fn)
+        r = mz.outcome(fn)
     finally:
         signal.setitimer(signal.ITIMER_VIRTUAL, 0)
         signal.signal(signal.SIGVTALRM, old)
+    if r[0] == "raise:_CpuTimeout":
+        _TIMEOUTS[0] += 1
+    return r
 
 
 def _proj(b):
